@@ -210,6 +210,15 @@ func runCheck(repo, prop, tier, fnFilter, outDir string, noReplay, verbose bool)
 	if lt != nil {
 		ts = append(ts, lt)
 	}
+	usedImmut := map[string]bool{}
+	for _, t := range ts {
+		for k := range t.usedImmut {
+			usedImmut[k] = true
+		}
+	}
+	if st := e.immutableSweep(usedImmut, prop); st != nil {
+		ts = append(ts, st)
+	}
 	if len(ts) == 0 {
 		fmt.Fprintf(os.Stderr, "nsqvc: no function under contract serves %s\n", prop)
 		return 2
